@@ -30,6 +30,10 @@ border are compared byte by byte with the same tile fetched alone, sampled pixel
 an upstream with alpha, with true colour + tRNS, or opaque RGBA behind a clipping coverage; cache options opaque /
 transparent / `mixed`; several requests on one cache whose image options object is shared; every stored tile (no
 buffer cut off) equals the same tile fetched alone on a fresh cache, format included.
+(h) base configuration x concurrent creators (fixed probes BASE_CONFIG_PROBES, independent of the seed): globals
+image.paletted false / image.jpeg_quality in force in the request thread (local_base_config), image options that leave
+the encoding open, one request handled by several concurrent creators (meta tiles or single tiles): every stored
+tile as encoded equals the same tile fetched alone under the same base configuration (format, PNG mode, pixels).
 Oracle (Python, exact fractions, independent of the model): stored tile == same tile fetched alone through a
 TileManager without meta tiling (bit-exact when no buffer is cut off at the grid border, <= 1 px otherwise);
 no background pixel more than one pixel inside the extent; every requested tile is produced; one upstream
@@ -874,7 +878,7 @@ def run(ctx):
 
     grids = []
     defs = []
-    T = {name: ([], []) for name in ('misc', 'meta_tile', 'minimal', 'plan', 'pixel', 'colour', 'faults', 'clip', 'enc')}
+    T = {name: ([], []) for name in ('misc', 'meta_tile', 'minimal', 'plan', 'pixel', 'colour', 'faults', 'clip', 'enc', 'palette')}
 
     def add(name, term, desc):
         T[name][0].append(term)
@@ -1230,6 +1234,9 @@ def run(ctx):
                     add('enc', '(%s, %s, %s)' % (blit(cfg['cache_opts'] == 'mixed'), blit(has_alpha),
                                                  'EncJPEG' if img.info.get('stored_format') == 'JPEG' else 'EncPNG'),
                         dict(rep, request=n, tile=coord, stored_format=img.info.get('stored_format'), has_alpha=has_alpha))
+                    add('palette', '(Some 0, true, %s, %s, %s, %s)' % (blit(cfg['cache_opts'] != 'mixed'), blit(cfg['cache_opts'] == 'mixed'),
+                                                                       blit(has_alpha), blit(img.info.get('stored_mode') == 'P')),
+                        dict(rep, request=n, tile=coord, stored_mode=img.info.get('stored_mode')))
                     fa, fb = img.info.get('stored_format'), ref.info.get('stored_format')
                     if fa != fb or img.size != ref.size or img.tobytes() != ref.tobytes():
                         a, b = picture.decode(img), picture.decode(ref)
@@ -1295,6 +1302,10 @@ def run(ctx):
                     ctx.fail('single-tile-fetch-fails', 'tile %r fetched alone is not produced' % (coord,), dict(rep, tile=coord))
                     continue
                 ctx.count('base_config:compared_with_tile_fetched_alone')
+                # correspondence: palette or true colour, as the base configuration of the REQUEST decides
+                add('palette', '(None, %s, %s, false, false, %s)' % (blit(bool(conf.image.paletted)), blit(cfg['cache_opts'] == 'png-base'),
+                                                                     blit(img.info.get('stored_mode') == 'P')),
+                    dict(rep, tile=coord, stored_mode=img.info.get('stored_mode')))
                 fa, fb = (img.info.get('stored_format'), img.info.get('stored_mode')), (ref.info.get('stored_format'), ref.info.get('stored_mode'))
                 if fa != fb or img.size != ref.size or img.tobytes() != ref.tobytes():
                     a, b = picture.decode(img), picture.decode(ref)
@@ -1577,6 +1588,10 @@ def run(ctx):
     ctx.corr_check('stored_encoding', I, 'bool * bool * encoding', T['enc'][0],
                    "fun c => let '(mixed, has_alpha, obs) := c in encoding_eqb (stored_encoding mixed has_alpha) obs",
                    lambda i: T['enc'][1][i], defs=dtext, shard=400)
+    ctx.corr_check('stored_palette', I, 'option Z * bool * bool * bool * bool * bool', T['palette'][0],
+                   "fun c => let '(colors, paletted, png, mixed, has_alpha, obs) := c in "
+                   "Bool.eqb (stored_with_palette colors paletted png mixed has_alpha) obs",
+                   lambda i: T['palette'][1][i], defs=dtext, shard=400)
     ctx.corr_check('stored_colour', I, 'mgrid * Z * how * bool * coord * Z * Z * option rgba', T['colour'][0],
                    "fun c => let '(m, q, h, tr, t, j, k, obs) := c in orgba_eqb (model_colour m q h tr t j k) obs",
                    lambda i: T['colour'][1][i], defs=dtext, shard=400)
